@@ -558,6 +558,12 @@ func (x *Exec) builtin(b *ssa.Builtin, args []Val, c *ssa.CallCommon) Val {
 		return nil
 	case "print", "println":
 		return nil
+	case "ssa:wrapnilchk":
+		p := args[0].(Ptr)
+		if p.Base == nil {
+			x.fail("nil-deref", "")
+		}
+		return p
 	case "min", "max":
 	}
 	panic(unsupported{"builtin " + b.Name()})
